@@ -301,10 +301,15 @@ Http::One::RequestParser::parseRequestFirstLine()
     if (!skipTrailingCrs(tok))
         return -1;
 
+    const auto beforeVersion = tok.remaining().length();
     if (!parseHttpVersionField(tok))
         return -1;
 
-    if (!http0() && !skipDelimiter(tok.skipAllTrailing(DelimiterCharacters()), "before protocol version"))
+    // An HTTP-version token (including an explicit HTTP/0.x) must be preceded
+    // by a delimiter. Only the RFC 1945 simple-request form has no version
+    // token and, hence, no delimiter.
+    const bool foundVersionToken = tok.remaining().length() != beforeVersion;
+    if (foundVersionToken && !skipDelimiter(tok.skipAllTrailing(DelimiterCharacters()), "before protocol version"))
         return -1;
 
     /* parsed everything before and after the URI */
